@@ -205,12 +205,19 @@ type stateW struct {
 
 func (s *stateW) SetState(term uint64, vote string) error {
 	return s.n.op("set_state", Ev{"term": int(term), "vote": vote, "ctx": s.n.ctx()}, func() error {
-		return s.inner.SetState(term, vote)
+		err := s.inner.SetState(term, vote)
+		if err == nil {
+			s.n.c.mu.Lock()
+			s.n.pterm, s.n.pvote = int(term), vote
+			s.n.c.mu.Unlock()
+		}
+		return err
 	})
 }
 
 func (s *stateW) State() (uint64, string, error) {
 	t, v, err := s.inner.State()
+	s.n.pterm, s.n.pvote = int(t), v
 	if !s.n.ghost.Load() {
 		e := Ev{"node": s.n.id, "inc": s.n.inc, "term": int(t), "vote": v}
 		if err != nil {
@@ -281,9 +288,9 @@ func (s *snapW) SnapshotFile() (raft.SnapshotFile, error) {
 	return &snapFileW{n: s.n, inner: f, fid: fid}, nil
 }
 
-func (f *snapFileW) Read(p []byte) (int, error)                   { return f.inner.Read(p) }
-func (f *snapFileW) Seek(off int64, whence int) (int64, error)     { return f.inner.Seek(off, whence) }
-func (f *snapFileW) Metadata() raft.SnapshotMetadata               { return f.inner.Metadata() }
+func (f *snapFileW) Read(p []byte) (int, error)                { return f.inner.Read(p) }
+func (f *snapFileW) Seek(off int64, whence int) (int64, error) { return f.inner.Seek(off, whence) }
+func (f *snapFileW) Metadata() raft.SnapshotMetadata           { return f.inner.Metadata() }
 
 func (f *snapFileW) Write(p []byte) (int, error) {
 	var nw int
